@@ -54,7 +54,7 @@ import itertools
 import re
 
 from mc import refs
-from mc.world import World1, msg_buffer, HarnessError
+from mc.world import World1, msg_buffer, num_in, HarnessError
 
 SOH = b"\x01"
 MARK = b"8=FIX."
@@ -84,6 +84,10 @@ CLAUSE = {
                   "that follow it (a valid frame decoded on the SAME Codec instance after the malformed input)",
     "live_delivered_twice": "one malformed frame can never block the frames that follow it on a live connection "
                             "(every frame is handed over once: no frame is delivered twice)",
+    "live_held_back": "one malformed frame can never block the frames that follow it on a live connection "
+                      "(a valid frame received in the SAME read is handed over without waiting for further data)",
+    "live_stale_bytes": "one malformed frame can never block the frames that follow it on a live connection "
+                        "(bytes left over when a connection dies are not part of the next connection's stream)",
     "baseline": "valid frames that follow are decoded (sanity: an undamaged stream is returned frame by frame)",
 }
 
@@ -383,6 +387,8 @@ def cause_of(buf, for_raise=False):
         t, val = f.split(b"=", 1)
         if not t.isdigit():
             return "non_numeric_tag"
+        if len(t) > 9:
+            return "oversized_tag"
         if t == b"10" and not val.isdigit():
             return "checksum_non_numeric"
         tags.append(t)
@@ -776,6 +782,135 @@ def live_case(m, kind):
         w.close()
 
 
+
+def coarse(m):
+    """Coarse input class for the read-loop clauses (one loop defect must not
+    fan out over every way a frame can be garbled)."""
+    c = cause_of(m)
+    if c == "no_start_marker":
+        return "junk"
+    if c == "fragment_lt3_fields":
+        return "fragment"
+    if c == "well_formed":
+        return "wellformed_frame"
+    return "garbled_frame"
+
+
+def declared_beyond(m):
+    """True when a header inside ``m`` declares a BodyLength that reaches beyond the
+    end of ``m``: a conforming decoder may take following bytes for its body."""
+    for h in HDR_RE.finditer(m):
+        if h.start() + len(h.group(0)) + int(h.group(1)) + 7 > len(m):
+            return True
+    return False
+
+
+def _live_open(S, T, root, rep):
+    """Fresh acceptor, clean logon, one delivered warm-up frame."""
+    w = World1("acceptor", S=S, T=T)
+    w.connect()
+    w.logon()
+    w.take()
+    w.peer("D", None, tail_body(2, root))
+    if len(w.c.delivered) != 1 or w.c.connection_state.name != "ACTIVE":
+        return w, _v("baseline", "valid_stream_not_decoded:live_warmup",
+                     {"delivered": len(w.c.delivered), "state": w.c.connection_state.name,
+                      "receive_buffer": len(msg_buffer(w.c))}, rep)
+    return w, None
+
+
+def _same_read(w, m, k, root, base):
+    """Feed m + k valid frames as ONE read. Returns the frames."""
+    seq = w.peer_seq
+    if (b"\x0134=%d\x01" % seq) in m:
+        w.peer_seq += 1
+    frames = []
+    for i in range(k):
+        frames.append(refs.frame("D", w.peer_seq, w.T, w.S, tail_body(base + i, root)))
+        w.peer_seq += 1
+    w.feed(m + b"".join(frames))
+    return frames
+
+
+def held_back_case(m, kind, k):
+    """The malformed input and k valid frames arrive in the SAME read, then the peer
+    is silent (no further read, no timer). Every valid frame that is still sitting
+    in the receive buffer at quiescence has been held back."""
+    S, T, root = ST["S"], ST["T"], ST["root"]
+    rep = {"mode": "held", "input": m, "kind": kind, "k": k, "S": S, "T": T, "root": root}
+    if not m or len(m) + 200 * k > 4000:
+        return None, "held:skipped"
+    if declared_beyond(m):
+        return None, "held:declared_length_covers_following_bytes_unconstrained"
+    w, v = _live_open(S, T, root, rep)
+    try:
+        if v:
+            return v, "violation"
+        before = len(w.c.delivered)
+        frames = _same_read(w, m, k, root, 5000)
+        left = msg_buffer(w.c)
+        obs = {"input": m[:400], "valid_frames_in_same_read": k, "delivered_after": len(w.c.delivered) - before,
+               "receive_buffer": len(left), "buffer_head": left[:120], "state": w.c.connection_state.name,
+               "cause": cause_of(m)}
+        if w.livelock:
+            return _v("live_livelock", cause_of(m), obs, rep), "violation"
+        if w.c.n_disconnect > 0:
+            return None, "held:disconnected_by_session_layer"
+        held = [i for i, f in enumerate(frames) if f in left]
+        if held:
+            obs["held_back_frames"] = held
+            return _v("live_held_back", coarse(m), obs, rep), "violation"
+        return None, "held:ok"
+    finally:
+        w.close()
+
+
+def stale_case(m, kind, k):
+    """The input (and k valid frames) arrive, the peer dies (EOF), connects again and
+    logs on. The new connection's Logon must be processed, a later frame delivered and
+    nothing that was received on the dead connection may be processed on the new one."""
+    S, T, root = ST["S"], ST["T"], ST["root"]
+    rep = {"mode": "stale", "input": m, "kind": kind, "k": k, "S": S, "T": T, "root": root}
+    if not m or len(m) + 200 * k > 4000:
+        return None, "stale:skipped"
+    w, v = _live_open(S, T, root, rep)
+    try:
+        if v:
+            return v, "violation"
+        _same_read(w, m, k, root, 5000)
+        if w.reader is not None:
+            w.reader.feed_eof()
+        w.run()
+        at_death = msg_buffer(w.c)
+        d0 = len(w.c.delivered)
+        l0 = w.c.n_logon
+        if w.c.n_disconnect < 1 or w.livelock:
+            return None, "stale:no_disconnect_on_eof"
+        w.connect()
+        at_connect = msg_buffer(w.c)
+        w.peer_seq = num_in(w.c)  # the peer resynchronised its numbering (what a gap fill would do)
+        w.logon()
+        new_ids = []
+        for i in range(3):
+            new_ids.append("%s%d" % (root, 6000 + i))
+            w.peer("D", None, tail_body(6000 + i, root))
+        got = [d.get("11") for (_t, _n, d) in w.c.delivered[d0:]]
+        stale = [x for x in got if x not in new_ids]
+        obs = {"input": m[:400], "valid_frames_in_same_read": k, "buffer_when_connection_died": len(at_death),
+               "buffer_at_new_connection": len(at_connect), "buffer_head": at_connect[:120],
+               "logons_processed_on_new_connection": w.c.n_logon - l0, "delivered_on_new_connection": got,
+               "state": w.c.connection_state.name, "cause": cause_of(m)}
+        if w.livelock:
+            return _v("live_livelock", cause_of(m), obs, rep), "violation"
+        if stale:
+            return _v("live_stale_bytes", coarse(m) + ":stale_frame_processed", obs, rep), "violation"
+        if w.c.n_logon == l0 or not any(x in new_ids for x in got):
+            return _v("live_stale_bytes", coarse(m) + ":new_connection_blocked", obs, rep), "violation"
+        return None, "stale:ok:%s" % ("buffer_empty" if not at_connect else "harmless_leftover")
+    finally:
+        w.close()
+
+
 # --------------------------------------------------------------------------
 # enumeration
 # --------------------------------------------------------------------------
@@ -862,6 +997,9 @@ def _work_edits(item):
             v, o = live_case(m, kind)
             acc.live += 1
             acc.add(rank, v, "edit:" + o)
+            v, o = held_back_case(m, kind, 1)
+            acc.live += 1
+            acc.add(rank, v, "edit:" + o)
     acc.calls = CALLS - c0
     return acc.pack()
 
@@ -879,6 +1017,14 @@ def _work_crafted(i):
     v, o = live_case(m, "crafted")
     acc.live += 1
     acc.add(rank, v, "crafted:" + o)
+    for k in (1, 2):
+        v, o = held_back_case(m, "crafted", k)
+        acc.live += 1
+        acc.add(rank, v, "crafted:" + o)
+    for k in (0, 1):
+        v, o = stale_case(m, "crafted", k)
+        acc.live += 1
+        acc.add(rank, v, "crafted:" + o)
     acc.calls = CALLS - c0
     return acc.pack()
 
@@ -912,7 +1058,11 @@ def baseline(ctx):
     v, o = live_case(ST["crafted"][0][1], "crafted")
     if v is not None or not o.startswith("live_ok:nogap"):
         bad.append(("live_valid:" + (v["signature"] if v else o), ST["crafted"][0][1]))
-    ctx.count(states=len(ST["corpus"]) + 3, traces=len(ST["corpus"]) + 3)
+    for fn, label in ((held_back_case, "held"), (stale_case, "stale")):
+        v, o = fn(ST["crafted"][0][1], "crafted", 1)
+        if v is not None or not o.endswith(("held:ok", "stale:ok:buffer_empty")):
+            bad.append(("live_valid_%s:%s" % (label, v["signature"] if v else o), ST["crafted"][0][1]))
+    ctx.count(states=len(ST["corpus"]) + 5, traces=len(ST["corpus"]) + 5)
     for what, data in bad:
         ctx.violation("baseline|valid_stream_not_decoded:" + what.split(":")[0], CLAUSE["baseline"],
                       {"what": what, "input": data[:400]},
@@ -1014,6 +1164,10 @@ def replay(ctx, rep):
         v, _o = sim_case(m, rep["kind"])
     elif mode == "live":
         v, _o = live_case(m, rep["kind"])
+    elif mode == "held":
+        v, _o = held_back_case(m, rep["kind"], rep["k"])
+    elif mode == "stale":
+        v, _o = stale_case(m, rep["kind"], rep["k"])
     else:
         raise HarnessError("unknown replay mode %r" % (mode,))
     return [v] if v else []
